@@ -66,7 +66,7 @@ PROPS = {
         "trusted_base": ["RFC 3414 section 3.2 (7b) acceptance window as the agent model"],
     },
     "C05": {
-        "standins": ["wire-emit", "interop-C10"],
+        "standins": ["wire-emit", "interop-C05"],
         "units": [wire_community.units_c05, wire_v3.units_emit, x690_bytes.units_for(("C05",)), tables.units_walkcall, seam.units_request_id], "level": "other", "design_ref": "7.5",
         "technique": VC + "the real chain operation -> _send -> plug-in loaders -> message processing -> security model -> "
                      "PDU framing executed symbolically; the bytes handed to the sender are compared with an RFC-transcribed "
